@@ -406,6 +406,28 @@ func (r *Runner) MisuseMatrix() *Violation {
 			if b, err := toFlush.Bytes(); err != nil || !bytes.Equal(b, cont) {
 				return fail(violationf("misuse-state", c.item, "flushed page changed after rejected writes (err=%v)", err))
 			}
+			// a reader that begins while this transaction holds uncommitted (and partly flushed)
+			// allocations beyond the committed end of the data area: those ids are out of range for it
+			if rtx, err := r.F.BeginReadonly(); err != nil {
+				return fail(violationf("begin", c.item, "BeginReadonly during a write transaction failed: %v", err))
+			} else {
+				var rv *Violation
+				for _, pg := range pages {
+					id := pg.ID()
+					if id < end {
+						continue
+					}
+					r.count("misuse-reader-probes-uncommitted-id")
+					if v := c.expectKind(fmt.Sprintf("Page(%d) in a reader begun while a write tx has allocated that id beyond the committed end marker %d", id, end),
+						func() error { _, err := rtx.Page(id); return err }, "InvalidPageID"); v != nil && rv == nil {
+						rv = v
+					}
+				}
+				rtx.Close()
+				if rv != nil {
+					return fail(rv)
+				}
+			}
 			// freed page
 			freedID := toFree.ID()
 			if err := toFree.Free(); err != nil {
